@@ -97,10 +97,12 @@ func c12(c *Ctx) {
 	r.Explain = "C12 (unavailable blocks surface as errors): decides, for every call site in the reader packages whose callee may reach a block load (closed-world call graph, including readers handed to io.Copy/io.ReadAll and interface dispatch over repository types), that on every CFG path the load error reaches the enclosing function's error result unchanged or wrapped — never dropped, never replaced by nil/EOF/not-found (R12.1/R12.2); functions without an error channel must be interface-imposed (datamodel.Node methods) or in a two-entry table of native typed accessors; and that sharded-directory iterators advance or report done on every path and clear an exhausted child cursor regardless of the error (R12.3). Not decided: that the bytes delivered before a missing span are exactly right."
 	r.Rule("R12.1", "for each call site in RP whose callees (closed-world graph) include a function with an error result that reaches a block load, path-sensitive check from the call to every exit: tested non-nil ⇒ the return carries that error or a wrapper of it; never tested ⇒ the return carries it, or a non-nil error chosen by a test on another result of the same call; enclosing functions without error result must be datamodel.Node methods or listed native accessors")
 	r.Rule("R12.2", "(decided together with R12.1) on the non-nil branch the returned error is that value or wraps it — a nil, io.EOF or not-found in its place is reported")
+	r.Rule("R12.4", "nothing is remembered about a failed load: a write to the state of a shared node (field store, map update through the receiver) that follows a load-carrying call in the same function is dominated by the nil outcome of that call's error — a verdict memoised after a failure would turn the unavailable block into not-found / empty on the next call")
 	r.Rule("R12.3", "iterator Next/next methods with a wrapped cursor: every path to a return advances a wrapped cursor (calls its Next) or has seen Done(); after advancing a nilable child cursor every path tests its Done() and clears it on the true edge before returning, whatever the error")
 	L, reach := c.loadCarrying(core.ReaderPkgs, core.FetchSites)
 	r.Analysed["load_carrying_functions"] = len(L)
 	r.Analysed["functions_reaching_a_load"] = len(reach)
+	c.checkNoMemoAfterFailure(L)
 	var nodeIface *types.Interface
 	if pk := c.P.All["github.com/ipld/go-ipld-prime/datamodel"]; pk != nil {
 		if o := pk.Types.Scope().Lookup("Node"); o != nil {
@@ -406,4 +408,122 @@ func (c *Ctx) checkIterProgress() {
 	}
 	r.Floor("R12.3", n, 5)
 	r.Floor("R12.3/child", nchild, 1)
+}
+
+// checkNoMemoAfterFailure implements R12.4.
+func (c *Ctx) checkNoMemoAfterFailure(L map[*ssa.Function]bool) {
+	r := c.R
+	shared := c.sharedTypes()
+	n := 0
+	for _, fn := range c.G.Funcs() {
+		rel, ok := c.P.PkgOf(fn)
+		if !ok || !core.ReaderPkgs[rel] || fn.Synthetic != "" || !c.P.HandWritten(fn) || len(fn.Params) == 0 {
+			continue
+		}
+		owner, _ := structOf(fn.Params[0].Type())
+		if owner == nil || !shared[owner] || fn.Signature.Recv() == nil {
+			continue
+		}
+		recv := ssa.Value(fn.Params[0])
+		// writes to the receiver's state
+		var writes []ssa.Instruction
+		for _, b := range fn.Blocks {
+			for _, ins := range b.Instrs {
+				switch x := ins.(type) {
+				case *ssa.Store:
+					if _, isFA := x.Addr.(*ssa.FieldAddr); isFA && core.RootOfAddr(x.Addr) == recv {
+						writes = append(writes, ins)
+					}
+				case *ssa.MapUpdate:
+					if u, ok := x.Map.(*ssa.UnOp); ok && core.RootOfAddr(u.X) == recv {
+						writes = append(writes, ins)
+					}
+				case *ssa.Call:
+					// a setter method of the same object (cache/memo helpers)
+					if h := x.Call.StaticCallee(); h != nil && h != fn && len(x.Call.Args) > 0 && x.Call.Args[0] == recv && core.RecvNamed(h) == core.RecvNamed(fn) && c.G.WritesThroughParam(h, 0) {
+						if _, isLoad := L[h]; !isLoad {
+							writes = append(writes, ins)
+						}
+					}
+				}
+			}
+		}
+		if len(writes) == 0 {
+			continue
+		}
+		ord := 0
+		for _, ci := range core.CallsIn(fn) {
+			is, _ := c.carrier(fn, ci, L, fetchSiteKind)
+			if !is {
+				continue
+			}
+			ev, has := core.ErrResultOfCall(ci)
+			if !has || ev == nil {
+				continue
+			}
+			wset := map[ssa.Instruction]bool{}
+			for _, w := range writes {
+				wset[w] = true
+			}
+			badAt := map[ssa.Instruction]bool{}
+			seenW := map[ssa.Instruction]bool{}
+			callIns := ci.(ssa.Instruction)
+			complete := core.EnumPathsFrom(callIns.Block(), 2, 60000, func(path []*ssa.BasicBlock) {
+				state := "untested"
+				started := false
+				for i, b := range path {
+					for _, ins := range b.Instrs {
+						if ins == callIns {
+							started = true
+							state = "untested"
+							continue
+						}
+						if !started {
+							continue
+						}
+						if wset[ins] {
+							seenW[ins] = true
+							if state != "nil" {
+								badAt[ins] = true
+							}
+						}
+					}
+					if i+1 < len(path) && started {
+						if cond, taken, ok := core.BranchTaken(b, path[i+1]); ok {
+							if x, trueMeansNil, ok := core.NilCmp(cond); ok && x == ev {
+								if taken == trueMeansNil {
+									state = "nil"
+								} else {
+									state = "nonnil"
+								}
+							}
+						}
+					}
+				}
+			})
+			for _, w := range writes {
+				if !seenW[w] {
+					continue
+				}
+				n++
+				ord++
+				key := fmt.Sprintf("%s/state-after-load#%d", core.FuncName(fn), ord)
+				if !complete {
+					r.Undecided("R12.4", key, c.P.Pos(w.Pos()), "path enumeration exceeded its bound")
+					continue
+				}
+				r.Check(!badAt[w], "R12.4", key, c.P.Pos(w.Pos()), "the node's state is written only after the load is known to have succeeded", "the node's state is written on a path where the load at "+c.P.Pos(ci.Pos())+" may have failed: a failure would be remembered as a verdict (not-found, empty, length) and the next call would not report it")
+			}
+		}
+	}
+	r.Floor("R12.4", n, 1)
+}
+
+func instrIndex(ins ssa.Instruction) int {
+	for i, x := range ins.Block().Instrs {
+		if x == ins {
+			return i
+		}
+	}
+	return -1
 }
